@@ -116,7 +116,7 @@ class GroupAdditivityScheme(Scheme):
 
     def GetDescriptors(self, mol, debug=0):
         if isinstance(mol, Chem.Mol):
-
+            clean_mol = mol
             mol = Chem.AddHs(mol)
             Chem.Kekulize(mol)
         elif isinstance(mol, str):
